@@ -127,7 +127,11 @@ impl StateMachine<'_> {
         self.minus_file_event = file_event;
 
         if self.source == Source::DiffUnified {
-            self.state = State::DiffHeader(DiffType::Unified);
+            // (keep what a `diff --cc` line has established: a stream may have been taken for
+            // `diff -u` output because of a line of text before its first diff)
+            if !matches!(self.state, State::DiffHeader(_)) {
+                self.state = State::DiffHeader(DiffType::Unified);
+            }
             if self.line.starts_with("--- ") {
                 // A new file starts here (there need not be a `diff` line): it gets its own
                 // header, also when it compares the same two files as the previous one.
